@@ -497,9 +497,19 @@ def run(ctx: Ctx):
         ca.check_part(ctx, 200 if not ctx.thorough else 3000, "C10", positional=False)
     finally:
         ca.UNM_CHOICES[0] = [0, 0, 0.25]
+    # dict displays whose values hold Is(...) parts vs Model/DictAssign.v
+    from .. import dictassign as da
+    da.UNM_CHOICES[0] = [0.3, 0.5]
+    try:
+        da.check_part(ctx, 200 if not ctx.thorough else 3000, "C10")
+    finally:
+        da.UNM_CHOICES[0] = [0, 0, 0.25]
 
 
 def replay(ctx: Ctx, data):
+    if isinstance(data.get("case"), dict) and data["case"].get("kind") in ("dict", "dict-orders"):
+        from .. import dictassign as da
+        return da.replay_case(data["case"])
     if isinstance(data.get("case"), dict) and data["case"].get("kind") == "call":
         from .. import callassign as ca
         return ca.replay_case(data["case"])
